@@ -268,7 +268,7 @@ def c18_5(ctx, ss, rule="C18.5", methods=None):
                 d = sibling.diff(sa, sb) or sibling.diff(sibling.holes(fa.node, REN), sibling.holes(fb.node, REN)) or [("<literal/expression difference>", "")]
                 ctx.violation(rule, k, where(fb, fb.node), f"{m}: the C++ and the Python generator differ in logic: `{d[0][0][:70]}` vs `{d[0][1][:70]}`")
             continue
-        sa, sb = sibling.skeleton(fa.node, REN), sibling.skeleton(fb.node, REN)
+        sa, sb = sibling.skeleton(fa.node, REN, skip_literal=True), sibling.skeleton(fb.node, REN, skip_literal=True)
         ha, hb = sibling.holes(fa.node, REN), sibling.holes(fb.node, REN)
         ds = sibling.diff(sa, sb)
         dh = [x for x in sibling.diff(ha, hb) if x not in ALLOWED_HOLES]
